@@ -11,7 +11,24 @@ use indextree::{Arena, NodeId};
 use rayon::prelude::*;
 use std::collections::{BTreeMap, HashMap, HashSet};
 use std::sync::atomic::{AtomicBool, Ordering};
+use std::sync::{Mutex, OnceLock};
 use std::time::Instant;
+
+/// One slot per worker thread: what library call is in flight (for the hang watchdog).
+pub struct InFlight {
+    pub since: Instant,
+    pub arena: String,
+    pub init: String,
+    pub path: Vec<Op>,
+    pub op: Option<Op>,
+}
+static WATCH: OnceLock<Vec<Mutex<Option<InFlight>>>> = OnceLock::new();
+pub fn watch_slots() -> &'static Vec<Mutex<Option<InFlight>>> {
+    WATCH.get_or_init(|| (0..130).map(|_| Mutex::new(None)).collect())
+}
+fn my_slot() -> usize {
+    rayon::current_thread_index().map(|i| i + 1).unwrap_or(0).min(129)
+}
 
 #[derive(Clone, Copy, Debug, Default)]
 pub struct Profile {
@@ -275,6 +292,7 @@ pub fn explore(cfg: &RunCfg, known: &Known) -> Report {
         // ---- phase 1: expand the frontier in parallel ---------------------------------
         let chunk = (frontier.len() / (cfg.threads.max(1) * 8)).max(1);
         let seen_ref = &seen;
+        let recs_ref = &recs;
         let outs: Vec<ChunkOut> = pool.install(|| {
             frontier
                 .par_chunks(chunk)
@@ -297,12 +315,26 @@ pub fn explore(cfg: &RunCfg, known: &Known) -> Report {
                             let k = (cfg.seed as usize) % opsv.len().max(1);
                             opsv.rotate_left(k);
                         }
+                        {
+                            let (root, path) = path_of(recs_ref, *idx);
+                            *watch_slots()[my_slot()].lock().unwrap() = Some(InFlight {
+                                since: Instant::now(),
+                                arena: format!("{:?}", s.arena),
+                                init: cfg.inits[root as usize].label(),
+                                path,
+                                op: None,
+                            });
+                        }
                         let before = if target & step::C13 != 0 {
                             Some(obs::debug_hash(&s.arena))
                         } else {
                             None
                         };
                         for op in opsv {
+                            if let Some(w) = watch_slots()[my_slot()].lock().unwrap().as_mut() {
+                                w.since = Instant::now();
+                                w.op = Some(op);
+                            }
                             let r = step::step(s, op, &cfg.judge);
                             out.transitions += 1;
                             out.digest = out.digest.wrapping_add(r.digest);
@@ -324,6 +356,7 @@ pub fn explore(cfg: &RunCfg, known: &Known) -> Report {
                                 }
                             }
                         }
+                        *watch_slots()[my_slot()].lock().unwrap() = None;
                         if let Some(b) = before {
                             if obs::debug_hash(&s.arena) != b {
                                 out.fails.push((
